@@ -234,6 +234,32 @@ def run_sequence(rng, impl, text, pars):
     return None, calls
 
 
+def shared_object_value(impl, variant):
+    """a template call whose VALUE is a mutable object that is not a number or an array (a register transform, as the include
+    mechanism passes them): the same object handed to two calls, one instance's argument modified afterwards"""
+    import sympy as sym
+    from blackbird.listener import RegRefTransform
+    text = H + ["Dgate({alpha}, 0.0) | 1\nRgate({alpha}) | 2\n", "MeasureX | 0\nZgate({alpha}) | 1\nKgate(k={alpha}) | 2\n"][variant % 2]
+    t = impl.loads(text)
+    q0, q3 = sym.Symbol("q0"), sym.Symbol("q3")
+    value = RegRefTransform(0.5 * q0 if variant < 2 else q0 - 2 * q3)
+    before_value = (str(value.func_str), list(value.regrefs), str(value.expr))
+    i1, i2 = t(alpha=value), t(alpha=value)
+    s2 = snapshot(i2)
+    for o in i1.operations:
+        for v in list(o.get("args", [])) + list(o.get("kwargs", {}).values()):
+            if isinstance(v, RegRefTransform):
+                v.regrefs[:] = [r + 5 for r in v.regrefs]
+                v.func_str = "changed"
+                v.expr = v.expr + 1
+    now2 = snapshot(i2)
+    if (str(value.func_str), list(value.regrefs), str(value.expr)) != before_value:
+        return "modifying a returned instance altered the object the caller passed as a parameter value (a register transform)"
+    if now2[0] != s2[0] or now2[1] != s2[1]:
+        return "modifying one returned instance altered another instance (both were given the same transform object as a value)"
+    return None
+
+
 def run(tier, seed):
     res = Result(PROP, tier, seed)
     rng = random.Random(seed)
@@ -262,6 +288,16 @@ def run(tier, seed):
             res.violate(msg, {"check": "readonly", "text": text, "pars": pars, "rng_state": repr(st)[:0], "seed_case": i, "seed": seed})
             if len(res.violations) >= 5:
                 break
+    for variant in range(4):
+        try:
+            msg = shared_object_value(impl, variant)
+        except Exception as e:  # noqa: BLE001
+            msg = "a template call with a register transform as the value fails: %s: %s" % (type(e).__name__, str(e)[:100])
+        res.case("shared-object-value-%d" % variant, True, None)
+        res.count("shared-object-value")
+        if msg:
+            ok = False
+            res.violate(msg, {"check": "shared-object-value", "variant": variant})
     res.oblige("correspondence: snapshots (dump text, content, operation keys) unchanged by every read-only call; instances/graphs separated from the template and from each other", "correspondence", ok)
     return finish(res, level="proof", trusted=fw.TRUSTED_COMMON + ["copy.deepcopy returns fresh isomorphic objects; the footprint extraction of T3 is syntactic (partial)"],
                   rule="templates (with/without arrays and target options) x random sequences of 2-7 calls among dumps, template call with varying values, "
@@ -273,6 +309,10 @@ def run(tier, seed):
 def replay(rep):
     import impl
     inp = rep["input"]
+    if inp.get("check") == "shared-object-value":
+        msg = shared_object_value(impl, inp["variant"])
+        print(msg)
+        return 1 if msg else 0
     rng = random.Random(inp["seed"])
     # regenerate the same case deterministically
     for i in range(inp["seed_case"] + 1):
